@@ -52,6 +52,34 @@ Theorem C08_no_data_race_no_lock_misuse :
 Proof. exact facts_race_free. Qed.
 Print Assumptions C08_no_data_race_no_lock_misuse.
 
+(* Panics.  [i_panic I] lists, per operation, its panic exits taken while a lock is held: what the call
+   had done when a callee (index / store helper, writer, user callback) or an index expression panicked,
+   followed by the deferred calls of every activation, innermost first.  For the three writable stores
+   the discipline holds with these exits counted among the ways a call can run ([with_panics]): every
+   lock is released by a deferred unlock, nothing guarded is touched after it -- so a goroutine that
+   recovers from such a panic leaves no lock behind: still no race, no unlock of an unheld mutex, and no
+   stuck configuration, whatever the other goroutines do. *)
+Theorem C08_recovered_panics_release_every_lock :
+  forall I, In I facts -> String.eqb (i_name I) "ReadOnly" = false ->
+  forall (progs : list (list act)) (c : cfg),
+    Forall (client_code (with_panics I)) progs ->
+    steps (i_table I) (init progs) c ->
+    ~ race c /\ ~ bad_unlock c /\
+    ((exists t, In t (ts c) /\ code t <> []) -> exists i a c', step (i_table I) c i a c').
+Proof. exact facts_panics_race_free. Qed.
+Print Assumptions C08_recovered_panics_release_every_lock.
+
+(* ReadOnly.AllKeysChan cannot use a deferred unlock (it hands its read lock to the goroutine it
+   starts): a panic between RLock and the hand-off (in carv1.ReadHeader / HeaderSize / Seek) would leave
+   the read lock held and block Close for ever.  These are the only panic exits of ReadOnly that leave a
+   lock behind; C09 proves that the header parser does not panic; ReadOnly alone is not one of the
+   property's objects (ReadWrite has its own AllKeysChan). *)
+Theorem C08_readonly_allkeyschan_is_the_only_panic_exit_that_keeps_a_lock :
+  panic_violations inst_ReadOnly <> [] /\
+  forallb (fun v => String.eqb (fst v) "AllKeysChan") (panic_violations inst_ReadOnly) = true.
+Proof. exact readonly_panic_leaks. Qed.
+Print Assumptions C08_readonly_allkeyschan_is_the_only_panic_exit_that_keeps_a_lock.
+
 (* section isolation: while a thread holds the mutex guarding field f exclusively, no other thread is
    at an access of f; while it holds it shared, no other thread is at a write of f *)
 Theorem C08_critical_sections_are_isolated :
@@ -257,38 +285,42 @@ Theorem C08_linearizable_partial :
 Proof. exact atomic_sections_linearizable. Qed.
 Print Assumptions C08_linearizable_partial.
 
-(* what any history that passes the check guarantees, in the words of the property *)
+(* what any history that passes the check guarantees, in the words of the property.  Blocks are ids;
+   [mhkey i] identifies the multihash of block i (different ids can carry one multihash under different
+   codecs / CID versions, and equal digest bytes under different hash codes are different multihashes:
+   the key families of RunConc.v); the stores de-duplicate by multihash. *)
 Theorem C08_put_returned_then_has_finds_it :
   forall (store : N) (v1 : bool) (ops : list cop) (hist : list (N * N)) (results : list cres) (w : list nat),
     lin_check store v1 ops hist results w = true ->
-    forall a b k r,
+    forall a b k k' r,
       (a < List.length ops)%nat -> (b < List.length ops)%nat ->
       is_put (nth_op ops a) -> In k (c_ids (nth_op ops a)) -> nth a results RNone = ROk ->
-      c_kind (nth_op ops b) = 2%N -> first_id (nth_op ops b) = k -> nth b results RNone = RNum r ->
+      c_kind (nth_op ops b) = 2%N -> first_id (nth_op ops b) = k' -> mhkey k' = mhkey k ->
+      nth b results RNone = RNum r ->
       (h_ret hist a < h_inv hist b)%N ->
       r = 1%N.
 Proof. exact lin_put_then_has. Qed.
 Print Assumptions C08_put_returned_then_has_finds_it.
 
-Theorem C08_get_returns_the_block_that_was_put :
+Theorem C08_get_returns_a_block_that_was_put_under_that_multihash :
   forall (store : N) (v1 : bool) (ops : list cop) (hist : list (N * N)) (results : list cres) (w : list nat),
     lin_check store v1 ops hist results w = true ->
     forall b x,
       (b < List.length ops)%nat -> c_kind (nth_op ops b) = 3%N -> nth b results RNone = RNum x ->
-      x = first_id (nth_op ops b) /\
+      mhkey x = mhkey (first_id (nth_op ops b)) /\
       exists a, (a < List.length ops)%nat /\ is_put (nth_op ops a) /\ In x (c_ids (nth_op ops a)) /\
                 ~ (h_ret hist b < h_inv hist a)%N.
 Proof. exact lin_get_exact. Qed.
-Print Assumptions C08_get_returns_the_block_that_was_put.
+Print Assumptions C08_get_returns_a_block_that_was_put_under_that_multihash.
 
 Theorem C08_has_reports_nothing_that_was_never_put :
   forall (store : N) (v1 : bool) (ops : list cop) (hist : list (N * N)) (results : list cres) (w : list nat),
     lin_check store v1 ops hist results w = true ->
     forall b,
       (b < List.length ops)%nat -> c_kind (nth_op ops b) = 2%N -> nth b results RNone = RNum 1%N ->
-      exists a, (a < List.length ops)%nat /\ is_put (nth_op ops a) /\
-                In (first_id (nth_op ops b)) (c_ids (nth_op ops a)) /\
-                ~ (h_ret hist b < h_inv hist a)%N.
+      exists a x, (a < List.length ops)%nat /\ is_put (nth_op ops a) /\ In x (c_ids (nth_op ops a)) /\
+                  mhkey x = mhkey (first_id (nth_op ops b)) /\
+                  ~ (h_ret hist b < h_inv hist a)%N.
 Proof. exact lin_has_only_put. Qed.
 Print Assumptions C08_has_reports_nothing_that_was_never_put.
 
